@@ -167,6 +167,7 @@ fn main() {
                 "c02v" => c02v::generate(&a.tier, a.seed),
                 "c03" => c03::generate(&a.tier, a.seed),
                 "c04" => c01::generate_c04(&a.tier, a.seed),
+                "c04a" => c01::generate_c04a(&a.tier, a.seed),
                 "c05" => c05::generate(&a.tier, a.seed),
                 "c06" => c06::generate(&a.tier, a.seed),
                 "c15" => c15::generate(&a.tier, a.seed),
